@@ -8,6 +8,7 @@ import (
 	"bytes"
 	"encoding/json"
 	"fmt"
+	"sort"
 	"strconv"
 	"strings"
 )
@@ -412,7 +413,14 @@ func (s *TypedMapType) IsValidExpression(exp Exp, pipeline *Pipeline, ast *Ast) 
 		}
 		var errs ErrorList
 		isDir := (s.IsFile() == KindIsDirectory)
-		for key, subexp := range exp.Value {
+		keys := make([]string, 0, len(exp.Value))
+		for key := range exp.Value {
+			keys = append(keys, key)
+		}
+		// Report errors in a stable order.
+		sort.Strings(keys)
+		for _, key := range keys {
+			subexp := exp.Value[key]
 			if err := s.Elem.IsValidExpression(subexp, pipeline, ast); err != nil {
 				errs = append(errs, &IncompatibleTypeError{
 					Message: "map key " + key,
